@@ -10,7 +10,7 @@ from engine import Verdict
 class Engine(DbEngine):
     prop = 'C10'
     profiles = ('debug',)
-    weights = {'new': 4, 'addr': 3, 'delete': 10, 'resubmit': 1.5, 'remove': 0.5, 'qown': 0.5, 'ghost': 0.3}
+    weights = {'new': 4, 'addr': 3, 'delete': 10, 'resubmit': 1.5, 'remove': 0.5, 'qown': 0.5, 'ghost': 0.3, 'expired': 0.6}
     aspects = {'addrs.find', 'noop-on-failure', 'stats.del', 'addrs.asof', 'store.result', 'ids.del', 'ids.hash', 'ids.has'}
     quick = (200, 30)
     thorough = (5000, 70)
@@ -116,7 +116,9 @@ class Engine(DbEngine):
                     base = now
                     continue
                 for (has, dl, _h), was in zip(now, base):
-                    if (has, dl, _h) != was:
+                    # only an event that WAS retrievable is protected (a victim that a later victim replaced is not stored any
+                    # more: an 'e' tag naming such an id is marked without an author check - the documented assumption)
+                    if was[0] == '1' and (has, dl, _h) != was:
                         return Verdict(oracle_ok=False, cls='foreign-request-removed-a-stored-event',
                                        detail="op %d: after another author's deletion request arrived while the reader table was crowded, a victim observes as has/deleted = %s%s" % (n, has, dl),
                                        outcome='removed')
